@@ -1,6 +1,7 @@
 package scen
 
 import (
+	"cosmossdk.io/math"
 	burnertypes "github.com/elys-network/elys/x/burner/types"
 	mctypes "github.com/elys-network/elys/x/masterchef/types"
 
@@ -40,6 +41,29 @@ func init() {
 		g.FeeProb = 0.4
 		g.MaxTx = 8
 		n := c.N(120, 400)
+		// several things of the same kind falling due in ONE block (whatever the code collects them in
+		// decides the order they are stored in): incentives in three reward denoms, new to each of
+		// three pools, all starting at the same height
+		if w.GovExec("reward denoms", &mctypes.MsgAddExternalRewardDenom{Authority: w.Gov, RewardDenom: "uatom", MinAmount: math.NewInt(1), Supported: true},
+			&mctypes.MsgAddExternalRewardDenom{Authority: w.Gov, RewardDenom: "uelys", MinAmount: math.NewInt(1), Supported: true},
+			&mctypes.MsgAddExternalRewardDenom{Authority: w.Gov, RewardDenom: "uusdc", MinAmount: math.NewInt(1), Supported: true}) {
+			h := w.Height
+			txs := []*chain.TxRecord{}
+			k := 0
+			for _, pid := range []uint64{1, 2, 32767} {
+				for _, dn := range []string{"uatom", "uelys", "uusdc"} {
+					a := w.Users[k]
+					txs = append(txs, w.Tx(a, &mctypes.MsgAddExternalIncentive{Sender: a.S(), RewardDenom: dn, PoolId: pid, FromBlock: h + 4, ToBlock: h + 4 + 25, AmountPerBlock: math.NewInt(int64(1000 + 37*k))}))
+					k++
+				}
+			}
+			b := w.Step(5, txs...)
+			for _, t := range b.Txs[1:] {
+				if t.OK() {
+					c.Ev("incentive_starting_with_others_in_one_block")
+				}
+			}
+		}
 		// block-time gaps so that day / week epochs (burner, tier, estaking) fire several at a time
 		g.Free(n, func(i int) int64 {
 			switch {
